@@ -477,6 +477,12 @@ Lemma checksum_chunks_app a b init :
   checksum_chunks (a ++ b) init = checksum_chunks b (checksum_chunks a init).
 Proof. unfold checksum_chunks. apply fold_left_app. Qed.
 
+Lemma checksum_chunks_cons c rest init :
+  checksum_chunks (c :: rest) init = checksum_chunks rest (checksum c init).
+Proof. reflexivity. Qed.
+Lemma checksum_chunks_nil init : checksum_chunks [] init = init.
+Proof. reflexivity. Qed.
+
 Definition small (c : list Z) : Prop := Z.of_nat (length c) <= 131072.
 
 Lemma checksum_chunks_closed chunks : forall init,
@@ -486,7 +492,7 @@ Proof.
   induction chunks as [|c rest IH]; intros init Hb Hs Hi.
   - cbn [checksum_chunks fold_left wsum fold_right]. rewrite Z.add_0_r. symmetry. apply dep_oc_norm_id, Hi.
   - inversion Hb as [|? ? Hc Hrest]; subst. inversion Hs as [|? ? Sc Srest]; subst.
-    change (checksum_chunks (c :: rest) init) with (checksum_chunks rest (checksum c init)).
+    rewrite checksum_chunks_cons.
     rewrite IH; [|exact Hrest|exact Srest|apply dep_checksum_u16; assumption].
     rewrite dep_checksum_closed by assumption.
     cbn [wsum fold_right]. fold (wsum rest). fold (wz c).
@@ -601,10 +607,14 @@ Proof.
   intros Hev.
   (* the chain of partial sums is one chunked sum *)
   assert (Ex : x = checksum_chunks ([r_local r; r_remote r; upper; [0; 0; 0; 58]] ++ rest' ++ [h0]) 0).
-  { subst x. rewrite !checksum_chunks_app. reflexivity. }
-  assert (Hh0 : bytes_ok h0).
-  { subst h0. inversion Hv as [|? ? _ Hv1]; subst. inversion Hv1 as [|? ? Hcb Hv2]; subst.
-    inversion Hv2 as [|? ? _ Hv3]; subst. inversion Hv3 as [|? ? _ Hv4]; subst. bok. }
+  { subst x. rewrite !checksum_chunks_app, !checksum_chunks_cons, !checksum_chunks_nil. reflexivity. }
+  pose proof (proj1 (Forall_forall _ _) Hv) as Hmem.
+  assert (Bc : is_byte c) by (apply Hmem; cbn [In]; tauto).
+  assert (Bi0 : is_byte i0) by (apply Hmem; cbn [In]; tauto).
+  assert (Bi1 : is_byte i1) by (apply Hmem; cbn [In]; tauto).
+  assert (Bs0 : is_byte s0) by (apply Hmem; cbn [In]; tauto).
+  assert (Bs1 : is_byte s1) by (apply Hmem; cbn [In]; tauto).
+  assert (Hh0 : bytes_ok h0) by (subst h0; bok).
   assert (Hup : bytes_ok upper) by (rewrite Eu; apply be32_ok).
   assert (H58 : bytes_ok [0; 0; 0; 58]) by bok.
   assert (Hsmall : Forall small rest').
@@ -612,8 +622,11 @@ Proof.
     assert (length ch <= np)%nat; [|lia].
     subst np. clear - Hin. induction rest' as [|a l IH]; [destruct Hin|].
     cbn [concat]. rewrite app_length. destruct Hin as [->|Hin]; [lia|]. specialize (IH Hin). lia. }
-  rewrite checksum_chunks_closed in Ex; [|bok|repeat (apply Forall_app; split); [repeat constructor; unfold small; cbn [length]; lia|exact Hsmall|repeat constructor; unfold small; cbn [length]; lia]|exact u16_0].
-  2:{ repeat constructor; unfold small; rewrite ?LL, ?LR; cbn [length]; lia. }
+  assert (Hall : Forall bytes_ok ([r_local r; r_remote r; upper; [0; 0; 0; 58]] ++ rest' ++ [h0])) by bok.
+  assert (Hsm : Forall small ([r_local r; r_remote r; upper; [0; 0; 0; 58]] ++ rest' ++ [h0])).
+  { apply Forall_app; split; [|apply Forall_app; split; [exact Hsmall|]];
+      repeat (apply Forall_cons; [unfold small; rewrite ?LL, ?LR; try subst upper; try subst h0; cbn [length]; lia|]); apply Forall_nil. }
+  rewrite (checksum_chunks_closed _ 0 Hall Hsm u16_0) in Ex.
   rewrite !wsum_app, (wsum_concat rest' Hev) in Ex. cbn [wsum fold_right] in Ex. rewrite Z.add_0_l in Ex.
   pose proof (wz_nonneg _ HL) as N1. pose proof (wz_nonneg _ HR) as N2.
   pose proof (wz_nonneg _ Hup) as N3. pose proof (wz_nonneg _ H58) as N4.
@@ -628,13 +641,11 @@ Proof.
   rewrite E1, E2.
   replace (Z.of_nat (length ([129; c; lnot16 x / 256; lnot16 x mod 256; i0; i1; s0; s1] ++ concat rest'))) with n
     by (rewrite app_length; cbn [length]; fold np; subst n; lia).
-  unfold pseudo6. rewrite <- Eu.
+  unfold pseudo6. rewrite <- Eu. rewrite <- !app_assoc.
   set (hdr := [129; c; lnot16 x / 256; lnot16 x mod 256; i0; i1; s0; s1]).
-  assert (Hhdr : bytes_ok hdr).
-  { subst hdr h0. inversion Hh0 as [|? ? _ Hv1]; subst. inversion Hv1 as [|? ? Hcb Hv2]; subst.
-    inversion Hv2 as [|? ? _ Hv3]; subst. inversion Hv3 as [|? ? _ Hv4]; subst. bok. }
-  rewrite <- dep_checksum_rfc1071; [|bok|exact u16_0|rewrite !app_length, LL, LR; cbn [length]; fold np; lia].
-  rewrite dep_checksum_closed; [|bok|exact u16_0|rewrite !app_length, LL, LR; cbn [length]; fold np; lia].
+  assert (Hhdr : bytes_ok hdr) by (subst hdr; bok).
+  rewrite <- dep_checksum_rfc1071; [|bok|exact u16_0|subst upper hdr; rewrite !app_length, LL, LR; cbn [length]; fold np; lia].
+  rewrite dep_checksum_closed; [|bok|exact u16_0|subst upper hdr; rewrite !app_length, LL, LR; cbn [length]; fold np; lia].
   fold (wz (r_local r ++ r_remote r ++ upper ++ [0; 0; 0; 58] ++ hdr ++ concat rest')).
   rewrite wz_app_even by (rewrite LL; reflexivity).
   rewrite wz_app_even by (rewrite LR; reflexivity).
@@ -664,9 +675,170 @@ Proof.
   pose (views := [[128; 0; 0; 0; 0; 1; 0; 2; 1; 2; 3]; [4; 5; 6; 7]]).
   assert (Hbyte : forall l, forallb is_byteb l = true -> bytes_ok l) by exact bytes_okb_ok.
   eexists (mkRoute a b), views, _.
-  split; [split; [repeat constructor; apply Hbyte; reflexivity|vm_compute; discriminate]|].
+  split; [split; [apply Forall_forall; intros l [<-|[<-|[]]]; apply Hbyte; reflexivity|vm_compute; discriminate]|].
   split; [apply Hbyte; reflexivity|]. split; [apply Hbyte; reflexivity|].
   split; [reflexivity|]. split; [reflexivity|]. split; [reflexivity|]. split; [reflexivity|].
   split; [vm_compute; reflexivity|].
   vm_compute. discriminate.
+Qed.
+
+(* ------------------------------------------------------------------ one request on an idle endpoint *)
+Lemma echo4_mirrors_l r views :
+  views_ok views -> is_echo_request4 views = true ->
+  exists p,
+    run4 ep4_init [Arrive r views; Drain] = mkEp4 [] [p] false /\
+    is_reply_to (mkReq r (echo_body (concat views))) p /\
+    length (p_msg p) = length (concat views) /\
+    echo4 views 0 = Ok (EReply (p_msg p)).
+Proof.
+  intros Hv He.
+  assert (Hq : req_ok (mkReq r (echo_body (concat views)))) by (apply echo_body_ok; assumption).
+  destruct (emit4_reply _ Hq) as (p & Ee & Hp).
+  exists p. split; [|split; [exact Hp|]].
+  - unfold run4. cbn [fold_left]. rewrite arrive_enqueue by exact He.
+    cbn [ep4_init pending sent crashed length Nat.ltb Nat.leb app step4]. rewrite Ee. reflexivity.
+  - unfold emit4 in Ee. cbn [q_data q_route] in Ee.
+    destruct (sendPing4 0 (echo_body (concat views))) as [[h pl]|] eqn:E; [|discriminate Ee].
+    cbn [obind fst snd] in Ee. injection Ee as <-.
+    destruct Hq as (Hb & H2 & Hl). cbn [q_data] in *.
+    assert (H0 : is_byte 0) by (unfold is_byte; lia).
+    destruct (sendPing4_spec 0 _ h pl Hb H0 Hl E) as (_ & Len & _).
+    unfold p_msg. cbn [p_hdr p_payload]. split.
+    + rewrite Len. unfold echo_body in *. rewrite skipn_length in *. lia.
+    + unfold echo4. rewrite (proj1 (is_echo_request4_iff views) He).
+      cbn [Nat.ltb Nat.leb q4_cap]. rewrite E. reflexivity.
+Qed.
+
+(* what is not an echo request for the code leaves the endpoint untouched: messages whose first
+   view is shorter than 6 bytes, and every other ICMP type *)
+Lemma echo4_ignored_l s r views :
+  (length (vv_first views) < 6)%nat \/ nth 0 (vv_first views) 0 <> 8 -> step4 s (Arrive r views) = s.
+Proof.
+  intros H. apply arrive_other. unfold is_echo_request4. apply andb_false_iff.
+  destruct H as [H|H]; [left; apply Nat.leb_gt; exact H|right; apply Z.eqb_neq; exact H].
+Qed.
+
+Lemma echo6_ignored_l r views :
+  (length (vv_first views) < 8)%nat \/ nth 0 (vv_first views) 0 <> 128 -> echo6 r views = Ok EIgnored.
+Proof.
+  intros H. unfold echo6.
+  assert (He : is_echo_request6 views = false).
+  { unfold is_echo_request6. apply andb_false_iff.
+    destruct H as [H|H]; [left; apply Nat.leb_gt; exact H|right; apply Z.eqb_neq; exact H]. }
+  destruct (handleICMP6 r views) as [[]|] eqn:E; try reflexivity.
+  - exfalso. exact (handleICMP6_not_echo r views He _ E).
+  - exfalso. exact (handleICMP6_no_panic r views E).
+Qed.
+
+(* a complete, correct echo request whose 8-byte ICMP header straddles two views is ignored by
+   both families (the length tests look at the first view only) *)
+Lemma echo_split_header_refuted_l :
+  exists v4 v6 a b,
+    views_ok v4 /\ (8 <= length (concat v4))%nat /\ nth 0 (concat v4) 0 = 8 /\ nth 1 (concat v4) 0 = 0 /\
+    rfc1071_sum (concat v4) 0 = 65535 /\
+    (forall s r, step4 s (Arrive r v4) = s) /\
+    views_ok v6 /\ (8 <= length (concat v6))%nat /\ nth 0 (concat v6) 0 = 128 /\ nth 1 (concat v6) 0 = 0 /\
+    length a = 16%nat /\ length b = 16%nat /\
+    rfc1071_sum (pseudo6 b a (Z.of_nat (length (concat v6))) ++ concat v6) 0 = 65535 /\
+    echo6 (mkRoute a b) v6 = Ok EIgnored.
+Proof.
+  exists [[8; 0; 247; 255]; [0; 0; 0; 0]], [[128; 0; 130; 184]; [0; 0; 0; 0]],
+         [254; 128; 0; 0; 0; 0; 0; 0; 0; 0; 0; 0; 0; 0; 0; 1],
+         [254; 128; 0; 0; 0; 0; 0; 0; 0; 0; 0; 0; 0; 0; 0; 2].
+  assert (Hbyte : forall l, forallb is_byteb l = true -> bytes_ok l) by exact bytes_okb_ok.
+  split; [split; [apply Forall_forall; intros l [<-|[<-|[]]]; apply Hbyte; reflexivity|vm_compute; discriminate]|].
+  split; [cbn; lia|]. split; [reflexivity|]. split; [reflexivity|]. split; [vm_compute; reflexivity|].
+  split; [intros s r; apply echo4_ignored_l; left; cbn; lia|].
+  split; [split; [apply Forall_forall; intros l [<-|[<-|[]]]; apply Hbyte; reflexivity|vm_compute; discriminate]|].
+  split; [cbn; lia|]. split; [reflexivity|]. split; [reflexivity|]. split; [reflexivity|]. split; [reflexivity|].
+  split; [vm_compute; reflexivity|].
+  apply echo6_ignored_l. left. cbn. lia.
+Qed.
+
+(* ------------------------------------------------------------------ the way in: addresses *)
+Lemma bytes_eqb_eq a : forall b, bytes_eqb a b = true <-> a = b.
+Proof.
+  induction a as [|x a IH]; intros [|y b]; cbn [bytes_eqb]; split; intros H; try discriminate H; try reflexivity.
+  - apply andb_true_iff in H as [H1 H2]. apply Z.eqb_eq in H1. apply IH in H2. congruence.
+  - injection H as -> ->. apply andb_true_iff. split; [apply Z.eqb_refl|apply IH; reflexivity].
+Qed.
+
+Lemma owns_In owned a : owns owned a = true <-> In a owned.
+Proof.
+  unfold owns. rewrite existsb_exists. split.
+  - intros (x & Hin & He). apply bytes_eqb_eq in He. subst. exact Hin.
+  - intros Hin. exists a. split; [exact Hin|apply bytes_eqb_eq; reflexivity].
+Qed.
+
+Ltac peel H :=
+  repeat match type of H with
+         | context [obind ?e _] => destruct e eqn:?; cbn [obind] in H; [|discriminate H]
+         | context [if ?c then _ else _] => destruct c eqn:?; try discriminate H
+         end.
+
+(* a packet reaches handleICMP only through an endpoint of an address the NIC owns, and the
+   route it comes with has that address as local and the packet's source as remote address *)
+Lemma nic4_route_l owned views r v : nic4_deliver owned views = Some (NICMP r v) ->
+  ipv4_destinationAddress (vv_first views) = Some (r_local r) /\
+  ipv4_sourceAddress (vv_first views) = Some (r_remote r) /\ In (r_local r) owned.
+Proof.
+  unfold nic4_deliver. cbv zeta. intros H. peel H.
+  injection H as <- <-. cbn [r_local r_remote].
+  split; [reflexivity|]. split; [reflexivity|]. apply owns_In.
+  match goal with Ho : negb (owns _ _) = false |- _ => apply negb_false_iff in Ho; exact Ho end.
+Qed.
+
+Lemma nic6_route_l owned views r v : nic6_deliver owned views = Some (NICMP r v) ->
+  ipv6_destinationAddress (vv_first views) = Some (r_local r) /\
+  ipv6_sourceAddress (vv_first views) = Some (r_remote r) /\ In (r_local r) owned.
+Proof.
+  unfold nic6_deliver. cbv zeta. intros H. peel H.
+  injection H as <- <-. cbn [r_local r_remote].
+  split; [reflexivity|]. split; [reflexivity|]. apply owns_In.
+  match goal with Ho : negb (owns _ _) = false |- _ => apply negb_false_iff in Ho; exact Ho end.
+Qed.
+
+(* a packet whose destination address is not one of the NIC's never reaches a network endpoint *)
+Lemma echo_foreign_ignored_l owned views dst :
+  ~ In dst owned ->
+  (ipv4_destinationAddress (vv_first views) = Some dst -> nic4_deliver owned views = Some NDrop) /\
+  (ipv6_destinationAddress (vv_first views) = Some dst -> nic6_deliver owned views = Some NDrop).
+Proof.
+  intros Hn.
+  assert (Ho : owns owned dst = false).
+  { destruct (owns owned dst) eqn:E; [|reflexivity]. apply owns_In in E. contradiction. }
+  split; intros Hd.
+  - unfold nic4_deliver. cbv zeta. destruct (length (vv_first views) <? 20)%nat eqn:L; [reflexivity|].
+    apply Nat.ltb_ge in L. rewrite Hd.
+    unfold ipv4_sourceAddress, getN. destruct (Nat.leb_spec (12 + 4) (length (vv_first views))); [|lia].
+    cbn [obind]. rewrite Ho. reflexivity.
+  - unfold nic6_deliver. cbv zeta. destruct (length (vv_first views) <? 40)%nat eqn:L; [reflexivity|].
+    apply Nat.ltb_ge in L. rewrite Hd.
+    unfold ipv6_sourceAddress, getN. destruct (Nat.leb_spec (8 + 16) (length (vv_first views))); [|lia].
+    cbn [obind]. rewrite Ho. reflexivity.
+Qed.
+
+(* satisfiability of the hypotheses by non-trivial inputs *)
+Example echo4_example :
+  let views := [[8; 0; 0; 0; 18; 52; 0; 1; 104]; [105; 33]] in
+  views_ok views /\ is_echo_request4 views = true /\
+  echo4 views 3 = Ok (EReply [0; 0; 100; 97; 18; 52; 0; 1; 104; 105; 33]) /\
+  echo4 views 10 = Ok EDropped.
+Proof.
+  cbv zeta. split; [split; [apply Forall_forall; intros l [<-|[<-|[]]]; apply bytes_okb_ok; reflexivity|vm_compute; discriminate]|].
+  split; [reflexivity|]. split; vm_compute; reflexivity.
+Qed.
+
+Example queue_example :
+  let rq k := Arrive (mkRoute [10; 0; 0; 1] [10; 0; 0; 2]) [[8; 0; 0; 0; 0; 7; 0; k]] in
+  let ops := map rq [1; 2; 3; 4; 5; 6; 7; 8; 9; 10; 11; 12] ++ [Drain; rq 13; rq 14] in
+  Forall op_ok ops /\
+  map (fun q => nth 3 (q_data q) 0) (pending (run4 ep4_init ops)) = [2; 3; 4; 5; 6; 7; 8; 9; 10; 13] /\
+  map (fun p => nth 7 (p_msg p) 0) (sent (run4 ep4_init ops)) = [1].
+Proof.
+  cbv zeta. split; [|split; vm_compute; reflexivity].
+  apply Forall_forall. intros o Hin. cbn [map app] in Hin.
+  repeat (destruct Hin as [<-|Hin];
+    [first [exact I|split; [apply Forall_forall; intros l [<-|[]]; apply bytes_okb_ok; reflexivity|vm_compute; discriminate]]|]).
+  destruct Hin.
 Qed.
